@@ -449,6 +449,14 @@ func main() {
 		"jwt_base_requests": len(allJWTBases(jwtCfgs)), "cs_base_requests": len(csBases(thorough)), "crypt_cases": len(cryptCases(thorough)),
 	})
 	b := mkBase(jwtCfgs[0], "s", "HS256", 2, [3]int{3, 1, 1})
+	sizes := map[string]int{}
+	for lvl := 0; lvl <= 2; lvl++ {
+		jwtMutations(b, lvl, func(string, []string) { sizes[fmt.Sprintf("jwt mutations of the sample base, level %d", lvl)]++ })
+	}
+	csMutations(csBases(thorough)[0], false, false, func(csMut) { sizes["cs mutations of the first base, tolerance/URI-dependent sub-list"]++ })
+	csMutations(csBases(thorough)[0], false, true, func(csMut) { sizes["cs mutations of the first base, full"]++ })
+	csMutations(csBases(thorough)[0], true, true, func(csMut) { sizes["cs mutations of the first base, deep"]++ })
+	r.Scenario("mutation-space-sizes", sizes)
 	r.Sample(map[string]any{"family": "jwt", "base": b.name(), "header": b.Hdr, "payload": b.Pay, "authorization": "Bearer " + b.Tok})
 	r.Sample(map[string]any{"family": "jwt", "mutation": "alg=none/sig-empty", "authorization": "Bearer " + b64u([]byte(stdHeader("none"))) + "." + b.p + "."})
 	r.Sample(map[string]any{"family": "seq", "history": "SSPXEJ", "meaning": "S/P valid by secret/prev, X bad signature, E expired, J clock jump past reset"})
